@@ -40,8 +40,10 @@ CHECKS = {
     'C04': 'dst.checks.c04',
     'C07': 'dst.checks.c07',
     'C08': 'dst.checks.c08',
+    'C05': 'dst.checks.c05',
     'C06': 'dst.checks.c06',
     'C09': 'dst.checks.c09',
+    'C11': 'dst.checks.c11',
     'C12': 'dst.checks.c12',
     'C13': 'dst.checks.c13',
     'C14': 'dst.checks.c14',
